@@ -2,10 +2,10 @@
 """Regenerates MANIFEST.json from the table below (kept next to the runner's metas.go)."""
 import json, subprocess
 checks = {
- "C01": ("exploration", "bounded-exhaustive enumeration of SMTP connection scripts × naming × store policy × backend on the real session code, store compared with a reference model after every transaction",
-         "Every connection script of the bounded grammar is run on a live in-process session; after every transaction end all mailboxes are compared with the model.", "Trusted: reply classes as the observable of acceptance; model.SimpleMailbox for the plain addresses used.", "3.C01"),
- "C02": ("exploration", "bounded-exhaustive enumeration of message bodies (token sequences + size ladder) through real SMTP and all four read interfaces, inside synctest bubbles",
-         "Every body of the bounded alphabet is transmitted and read back through store, REST, web UI and POP3 and compared byte-wise modulo line-ending normalisation.", "Trusted: client dot-stuffs after CRLF and bare LF; NormLE canonical form; testing/synctest quiescence.", "3.C02"),
+ "C01": ("exploration", "bounded-exhaustive enumeration of SMTP connection scripts × naming × store policy × backend on the real session code, store compared with a reference model after every transaction; plus stateless exploration of all schedules (preemption-bounded) of two overlapping transactions under a controlled scheduler",
+         "Every connection script of the bounded grammar is run on a live in-process session; after every transaction end all mailboxes are compared with the model. Two sessions transferring and delivering at the same time are explored under every schedule within the bound: both acknowledged, each stored exactly once.", "Trusted: reply classes as the observable of acceptance; model.SimpleMailbox for the plain addresses used.", "3.C01"),
+ "C02": ("exploration", "bounded-exhaustive enumeration of message bodies (token sequences + size ladder) through real SMTP and all four read interfaces, inside synctest bubbles; plus stateless exploration of all schedules (preemption-bounded) of two concurrent DATA transfers under a controlled scheduler with a deterministic sync.Pool",
+         "Every body of the bounded alphabet is transmitted and read back through store, REST, web UI and POP3 and compared byte-wise modulo line-ending normalisation. Two sessions transferring different messages at the same time are explored under every schedule within the bound: each stored message carries the bytes its own session sent.", "Trusted: client dot-stuffs after CRLF and bare LF; NormLE canonical form; testing/synctest quiescence.", "3.C02"),
  "C03": ("exploration", "bounded-exhaustive enumeration of SMTP command-line sequences (full tree + explicit-state search) and of every byte-offset cut of valid dialogues, real session code in synctest bubbles vs envelope model",
          "All command sequences to the bound, one well-formed reply per line decided by exact quiescence, gating of MAIL/RCPT/DATA, store equals deliveries to recipients accepted since the latest MAIL; every cut offset of three dialogues in lock-step and pipelined mode.", "Trusted: replies the statement leaves open are not pinned; net.Pipe as the connection; synctest's durably-blocked notion; go1.26.8.", "3.C03"),
  "C04": ("exploration", "exhaustive enumeration of all address strings up to a length over a 13-symbol alphabet in three naming modes, metamorphic relations on the real naming functions; delivery/read agreement on live interfaces",
@@ -55,12 +55,12 @@ m = {
    "guard": "verif",
    "enable": "go build/test -tags verif (files pkg/**/verif_export.go); scheduler-driven checks additionally use a go build -overlay generated from the working tree at check time",
    "baseline_off_cmd": "cd /repo && GOFLAGS=-mod=mod GOPROXY=off GOSUMDB=off go test -json -vet=off -count=1 -timeout 25m ./...",
-   "source_commits": [l.split()[0] for l in hooks_commits if l.split(' ',1)[1].startswith("verif:")],
+   "source_commits": [l.split()[0] for l in hooks_commits if l.split(' ',1)[1].startswith("verif")],
    "add_only": True,
  },
  "engines": [
    {"name": "crashx", "path": "checks/c11.go", "serves_properties": ["C11"], "kind_free_text": "strace-recorded syscall log of the real write path → file-system effect replayer → exhaustive crash images (prefixes, torn writes, unlink subsets) → recovery with the real store"},
-   {"name": "schedx", "path": "engine/ + checks/schedx.go", "serves_properties": ["C09","C12","C15","C16","C17","C19"], "kind_free_text": "hand-written stateless model checker for Go: controlled scheduler on testing/synctest (engine/vrt/vsched), sync/net shims (vsync, vnet), go/ast instrumenter producing a -overlay of every file under /repo/pkg from the working tree at check time, runtime patches for select and map iteration, DFS with iterative preemption bounding, replay-twice determinism check"},
+   {"name": "schedx", "path": "engine/ + checks/schedx.go", "serves_properties": ["C01","C02","C09","C12","C15","C16","C17","C19"], "kind_free_text": "hand-written stateless model checker for Go: controlled scheduler on testing/synctest (engine/vrt/vsched), sync/net shims (vsync, vnet), go/ast instrumenter producing a -overlay of every file under /repo/pkg from the working tree at check time, runtime patches for select and map iteration, DFS with iterative preemption bounding, replay-twice determinism check"},
    {"name": "seqx", "path": "fw/seq.go", "serves_properties": sorted(checks), "kind_free_text": "bounded-exhaustive operation-sequence / input explorer with explicit-state deduplication over the real implementation, compared with Go reference models; sessions run in testing/synctest bubbles where exact quiescence is needed"},
  ],
  "checks": [],
